@@ -59,7 +59,7 @@ class BdspInitialize(Initialize):
             if opt_params.get("split") is None:
                 self.split = int(ceil(log2(len(params)) / 2))  # sublinear
             else:
-                self.split = opt_params.get("split")
+                self.split = int(opt_params.get("split"))
 
         self._name = "bdsp"
         self._get_num_qubits(params)
